@@ -1,11 +1,15 @@
 //! Kani harnesses (external crate, path dependency on /repo).
 #![feature(allocator_api)]
+#![recursion_limit = "512"]
 #![allow(unused, static_mut_refs)]
 #[path = "../../common/stubs.rs"]
 pub mod stubs;
 #[path = "../../common/util.rs"]
 #[macro_use]
 pub mod util;
+#[cfg(kani)]
+#[macro_use]
+mod common;
 #[cfg(kani)]
 mod c23;
 #[cfg(kani)]
